@@ -196,9 +196,46 @@ pub fn thread_altstack() {
     }
 }
 
+thread_local! {
+    static MY_SLOT: std::cell::Cell<usize> = const { std::cell::Cell::new(usize::MAX) };
+}
+
 /// Claims slot `i` for the calling thread.
 pub fn claim_slot(i: usize) {
     SLOTS[i % NSLOTS].tid.store(gettid(), Ordering::SeqCst);
+    MY_SLOT.with(|c| c.set(i % NSLOTS));
+}
+
+/// The stack every `std::thread::spawn` gets unless the caller asks for something else.
+pub const ORDINARY_STACK: usize = 2 << 20;
+
+/// Runs `f` on a fresh thread with an ordinary stack (the workers of this harness have 256 MiB, which
+/// would hide stack use that grows with the input - one frame per byte, per message, per list entry).
+/// The in-flight case of the calling thread is lent to that thread for the duration of the call, so a
+/// stack overflow (SIGSEGV on the guard page, handled on the alternate stack) is saved and reported
+/// like any other crash. A panic inside `f` is returned as `Err`.
+pub fn on_ordinary_stack<T: Send>(f: impl FnOnce() -> T + Send) -> Result<T, PanicInfo> {
+    let slot = MY_SLOT.with(|c| c.get());
+    let r = std::thread::scope(|s| {
+        std::thread::Builder::new()
+            .stack_size(ORDINARY_STACK)
+            .spawn_scoped(s, move || {
+                thread_altstack();
+                if slot != usize::MAX {
+                    SLOTS[slot].tid.store(gettid(), Ordering::SeqCst);
+                }
+                catch(f)
+            })
+            .expect("spawn")
+            .join()
+    });
+    if slot != usize::MAX {
+        SLOTS[slot].tid.store(gettid(), Ordering::SeqCst);
+    }
+    match r {
+        Ok(v) => v,
+        Err(_) => Err(PanicInfo { msg: "<thread ended by a panic outside catch>".into(), file: String::new(), line: 0 }),
+    }
 }
 
 /// Publishes the serialised in-flight case of slot `i`. The buffer must stay alive and
